@@ -62,7 +62,11 @@ def stylize(pr, rng, prefix_words=None):
                 f["name"] = fd["name"]
     p["_prefix_words"] = {}
     if prefix_words:
-        text = "_".join(prefix_words) + "_"
+        # the option's spelling: lower case, UPPER case, or mixed -- the prescribed names are built from the
+        # WORDS of the prefix, whatever their case in the option
+        style = rng.choice(["lower", "lower", "upper", "mixed"])
+        ws = [w.upper() if style == "upper" or (style == "mixed" and i % 2) else w for i, w in enumerate(prefix_words)]
+        text = "_".join(ws) + "_"
         main = p["files"][p["main"]]
         pi = [i for i, x in enumerate(main) if x["d"] == "proto"][0]
         main.insert(pi + 1, {"d": "option", "name": "c.name_prefix", "v": {"e": "str", "src": text, "val": text}})
